@@ -150,7 +150,7 @@ func main() {
 			"Further non-free axes per leaf (sharing the deviation bound): how the parties' protocol objects were obtained (ShallowCopies of party 0's / all constructed / a chain of copies) and what the objects did before the judged run (nothing / a run at level 0 / a run at the maximum level with the same key objects / a run with other keys). " +
 			"RLWE-level protocols run in all four cells of (ciphertext domain NTT/coefficient) x (parameters NTTFlag true/false), at every level. Chains include conjugate-invariant rings (RLWE level and CKKS, even and odd log N); masked transforms also switch parameters (BGV: another chain; CKKS: another chain with another default scale, twice and half the ring degree, through the constructor and through WithParams); a high-precision CKKS world (12.. 8 primes, scale 2^90, input scales 2^90, 2^90+2^37-1 and 2^180/(q7*q6) obtained by an actual Rescale); CKKS log-bound settings from security parameters 64/128/160; two chains with no slack at the documented minimum level. " +
 			"KeySwitch-shaped shares also travel through WriteTo/ReadFrom over fragmenting transports. BGV refresh/transform shares: the error of both halves is isolated per share (the re-encryption half separates into f(M) + t*e exactly). " +
-			"Smudge scenarios: one leaf = 4 parties (a constructed object, its ShallowCopy, a copy of the copy, a second constructed object; all reused over the rounds at changing levels) x 8..32 ciphertexts (>= 512 error coefficients), the error of every share isolated as share - c1*(s_in - s_out) (+ the mask).",
+			"Every finalisation call (KeySwitch of both protocols, GetEncryption, Finalize / Transform) is repeated in every leaf with six receiver shapes (fresh at / above / below the result level, degree 2, stale content above / at the level) and must give the in-place result (level, degree, polynomials, metadata) or refuse with an error. Smudge scenarios: one leaf = 4 parties (a constructed object, its ShallowCopy, a copy of the copy, a second constructed object; all reused over the rounds at changing levels) x 8..32 ciphertexts (>= 512 error coefficients), the error of every share isolated as share - c1*(s_in - s_out) (+ the mask).",
 		Assumptions: []string{
 			"hard noise bounds from the declared truncated Gaussians: per key-switch share floor(6*sqrt(sigma_fresh^2+sigma_flood^2)+0.5); leaves whose worst-case bound leaves the correctness budget (Q/8 at RLWE level, Q/(2t) for BGV, CKKS minimum level below GetMinimumLevelForRefresh) are out of scope",
 			"masked transforms are linear maps on the plaintext vector (the protocol adds f(m - sum M_i) and f(M_i)): 'slot-wise affine' is instantiated as slot-wise scaling by distinct constants, and permutations",
@@ -160,6 +160,7 @@ func main() {
 			"protocol objects are used sequentially (sharing of scratch memory between ShallowCopies is C10's subject)",
 			"high-precision CKKS world (scale 2^90, also non-dyadic and rescaled scales): expected values are computed with big integers / 256-bit floats; transforms whose expected value needs float64 (Decode without Encode) are left to the 2^25 / 2^40 worlds",
 			"the ciphertext-domain axis applies to KeySwitch and PublicKeySwitch; BGV and CKKS ciphertexts are in the NTT domain by construction (the schemes' parameters force NTTFlag=true and their share-conversion protocols document NTT-domain shares)",
+			"alias oracle (reflective snapshot, polynomial / big-integer payloads only): an output never shares memory with the protocol object or the inputs; GetShare(nil, ...) is also read after a second call on the same object. rlwe.Scale values are copied by value throughout the library (shared big.Float mantissas) and are not part of this oracle",
 			"BGV encoder / CKKS encoder are trusted for message <-> plaintext polynomial (C07); decryption itself is the harness's own phase computation",
 		},
 		Scenarios:      scenarios,
@@ -183,7 +184,7 @@ func expect(tier string) []string {
 		"merge-variant=stream-first-1byte", "merge-variant=stream-second-split5",
 		"chain=midci", "chain=mixedci", "chain=ck40ci", "chain=ck25ci", "ckks-ring=conjugate-invariant",
 		"params-switch=bgv/mixed->mid", "params-switch=ckks/new/N16->N16", "params-switch=ckks/with/N16->N16", "params-switch=ckks/new/N16->N32", "params-switch=ckks/with/N16->N32",
-		"params-switch=ckks/new/N32->N16", "params-switch=ckks/with/N32->N16", "domain=ct-ntt=true/params-ntt=true", "domain=ct-ntt=false/params-ntt=true", "domain=ct-ntt=true/params-ntt=false", "domain=ct-ntt=false/params-ntt=false", "chain=ck90", "ckks-scale=nd", "ckks-scale=rescaled", "ckks-lambda=128", "ckks-lambda=64", "ckks-lambda=160",
+		"params-switch=ckks/new/N32->N16", "params-switch=ckks/with/N32->N16", "domain=ct-ntt=true/params-ntt=true", "domain=ct-ntt=false/params-ntt=true", "domain=ct-ntt=true/params-ntt=false", "domain=ct-ntt=false/params-ntt=false", "consecutive-calls=ckks-getshare", "consecutive-calls=bgv-getshare", "alias=outputs-vs-inputs-and-callee", "receiver=fresh-at-result-level", "receiver=fresh-above", "receiver=fresh-below", "receiver=degree-2", "receiver=stale-content-above", "receiver=stale-content-at-level", "chain=ck90", "ckks-scale=nd", "ckks-scale=rescaled", "ckks-lambda=128", "ckks-lambda=64", "ckks-lambda=160",
 		"refresh-share-smudging=both-halves", "parties=4", "parties=5", "parties=8",
 		"ckks-flags=rejected", "ckks-minlevel=at-minimum", "ckks-minlevel=no-slack", "ckks-minlevel=below-minimum-rejected-or-correct",
 	}
